@@ -25,7 +25,7 @@ var R = hx.NewRecorder("C13", "cases = (two long-term keys, two ephemeral keys, 
 var cv = rsm2.Std
 
 func TestMain(m *testing.M) {
-	R.Require("V_leading_zero", "eph_leading_zero", "id_empty", "klen%32!=0", "klen>32", "offcurve", "V_infinite", "id_too_long", "key_all_zero", "V_infinite_own_t_zero", "offcurve_foreign_curve", "offcurve_foreign_b")
+	R.Require("V_leading_zero", "eph_leading_zero", "id_empty", "klen%32!=0", "klen>32", "offcurve", "V_infinite", "id_too_long", "key_all_zero", "V_infinite_own_t_zero", "offcurve_foreign_curve", "offcurve_foreign_b", "ids_in_one_buffer", "t_sparse")
 	hx.Main(m, R)
 }
 
@@ -48,6 +48,7 @@ type kx struct {
 	a, b, ra, rb gen.Key
 	ida, idb     []byte
 	klen         int
+	shared       bool // both identities are windows of one caller buffer that has room behind them
 }
 
 func drawKX(t *rapid.T) kx {
@@ -56,6 +57,22 @@ func drawKX(t *rapid.T) kx {
 	c.klen = rapid.OneOf(gen.LenAround(32, 1024), rapid.SampledFrom([]int{1, 16, 31, 32, 33, 48, 64})).Draw(t, "klen")
 	if c.klen < 1 {
 		c.klen = 1
+	}
+	c.shared = rapid.IntRange(0, 2).Draw(t, "sharedIDs") == 0
+	// a long-term key chosen so that t = d + xbar(R)*r mod n is SPARSE (a power of two plus a little): the scalar
+	// the implementation multiplies by then has very long runs of zero digits, which random keys never give
+	if k := rapid.IntRange(0, 7).Draw(t, "sparseT"); k < 2 {
+		tt := new(big.Int).Lsh(big.NewInt(1), uint(rapid.IntRange(129, 255).Draw(t, "tbit")))
+		tt.Add(tt, big.NewInt(int64(rapid.SampledFrom([]int{1, 3, 2, 255, 65537}).Draw(t, "tlow"))))
+		eph, lt := &c.ra, &c.a
+		if k == 1 {
+			eph, lt = &c.rb, &c.b
+		}
+		d := new(big.Int).Mul(cv.XBar(eph.Pub.X), eph.D)
+		d.Sub(tt, d).Mod(d, cv.N)
+		if d.Sign() > 0 && d.Cmp(new(big.Int).Sub(cv.N, big.NewInt(1))) < 0 {
+			*lt = gen.Key{D: d, Pub: cv.BaseMul(d), Class: "sparse_t"}
+		}
 	}
 	return c
 }
@@ -75,6 +92,18 @@ func run(t interface{ Fatalf(string, ...any) }, c kx) {
 	objs := []*sm2.PrivateKey{sm2x.Priv(c.a), sm2x.Priv(c.b), sm2x.Priv(c.ra), sm2x.Priv(c.rb)}
 	pubs := []*sm2.PublicKey{sm2x.Pub(c.b.Pub), sm2x.Pub(c.rb.Pub), sm2x.Pub(c.a.Pub), sm2x.Pub(c.ra.Pub)}
 	ida, idb := append([]byte{}, c.ida...), append([]byte{}, c.idb...)
+	var shared, sharedWas []byte
+	if c.shared {
+		// one message buffer of the caller: idA | idB | other fields; each identity is a window with capacity behind it
+		shared = make([]byte, len(c.ida)+len(c.idb)+192)
+		for i := range shared {
+			shared[i] = byte(0xA5 ^ i)
+		}
+		copy(shared, c.ida)
+		copy(shared[len(c.ida):], c.idb)
+		sharedWas = append([]byte{}, shared...)
+		ida, idb = shared[:len(c.ida)], shared[len(c.ida):len(c.ida)+len(c.idb)]
+	}
 	if p := hx.Try(func() {
 		kA, s1A, s2A, eA = sm2.KeyExchangeA(c.klen, ida, idb, objs[0], pubs[0], objs[2], pubs[1])
 		kB, s1B, s2B, eB = sm2.KeyExchangeB(c.klen, ida, idb, objs[1], pubs[2], objs[3], pubs[3])
@@ -95,6 +124,9 @@ func run(t interface{ Fatalf(string, ...any) }, c kx) {
 	}
 	if !bytes.Equal(ida, c.ida) || !bytes.Equal(idb, c.idb) {
 		t.Fatalf("key exchange modified the caller's identity bytes")
+	}
+	if !bytes.Equal(shared, sharedWas) {
+		t.Fatalf("key exchange WROTE into the caller's buffer outside the identity it was given (identities passed as windows of one buffer)")
 	}
 	wk, ws1, ws2, werr := cv.Exchange(c.klen, c.ida, c.idb, true, c.a.D, c.ra.D, c.b.Pub, c.rb.Pub)
 	if werr != nil {
@@ -141,6 +173,12 @@ func classes(c kx) []string {
 	}
 	if c.klen > 32 {
 		cl = append(cl, "klen>32")
+	}
+	if c.shared {
+		cl = append(cl, "ids_in_one_buffer")
+	}
+	if c.a.Class == "sparse_t" || c.b.Class == "sparse_t" {
+		cl = append(cl, "t_sparse")
 	}
 	return cl
 }
